@@ -91,7 +91,7 @@ if _U:
                       "other shared mutable state; get_cpu_features stores only a CPUID-derived value (idempotent)",
         "level_note": _CBMC_NOTE + "; interleavings of concurrent calls are ARGUED from disjoint frames, not explored (no tool "
                       "here explores them); Rust side: safe code, frames fixed by &mut, cpufeatures' atomics assumed",
-        "units": {"quick": _units("C18", "quick") + [g("rust_statics"), g("c_cache_single_store")], "thorough": _units("C18", "thorough")},
+        "units": {"quick": _units("C18", "quick") + [g("rust_statics"), g("c_cache_single_store"), g("c_statics")], "thorough": _units("C18", "thorough")},
         "explanation": "isolation of independent hasher instances as absence of shared mutable state (frame conditions)",
         "uncovered": ["actual concurrent executions / data races (not modelled)", "Rust statics in dependencies (cpufeatures)",
                       "the idempotence of get_cpu_features is checked as 'stores only a CPUID-derived value'; the ORDER of "
